@@ -1039,7 +1039,10 @@ def wmom(
     if inputmean is None:
         wmean = (weights * arr).sum(axis=0) / wtot
     else:
-        wmean = float(inputmean)
+        # a scalar, or an [ndim] array that broadcasts against the columns
+        wmean = np.asarray(inputmean, dtype=np.float64)
+        if wmean.ndim == 0:
+            wmean = float(wmean)
 
     # how should error be calculated?
     if calcerr:
